@@ -115,7 +115,7 @@ inline void gen_xsd_group(std::vector<GCase>& out, bool thorough) {
             if (!thorough && t == 1 && (c + o + ctx) % 2) continue;
             std::string body = XSD_R_AND_AB;
             body += std::string("<xs:group name='g'><xs:") + comps[c] + "><xs:element ref='%a'/><xs:element name='l' type='xs:date' minOccurs='0'/></xs:" + comps[c] + "></xs:group>\n";
-            body += "<xs:group name='g2'><xs:sequence><xs:group ref='%g'/><xs:element ref='%b' minOccurs='0'/></xs:sequence></xs:group>\n";
+            if (c != 2) body += "<xs:group name='g2'><xs:sequence><xs:group ref='%g'/><xs:element ref='%b' minOccurs='0'/></xs:sequence></xs:group>\n";
             std::string ref = "<xs:group ref='%g'" + occ_attrs(OCCS[o]) + "/>";
             std::string content;
             switch (ctx) {
@@ -213,6 +213,7 @@ inline void gen_xsd_annot(std::vector<GCase>& out, bool thorough, bool withSynth
             make(ns, 0x155555, bk, false, "even positions body " + std::to_string(bk));
         }
         make(ns, 0, 0, false, "no annotations");
+        make(ns, ((1u << NP) - 1) & ~4u, 2, false, "all positions except notation body 2");
         // generateSyntheticAnnotations: TraverseSchema::generateSyntheticAnnotation casts the DOMDocument to DOMElement* (UBSan vptr abort, unrelated defect)
         if (withSynthetic) { make(ns, 0, 0, true, "synthetic annotations only"); make(ns, (1u << NP) - 1, 2, true, "all positions + synthetic"); }
         if (thorough) for (int p = 0; p + 1 < NP; p++) make(ns, 3u << p, 0, false, "positions " + std::to_string(p) + "," + std::to_string(p + 1));
